@@ -30,6 +30,7 @@ import time
 import traceback
 
 from ..translate import c13 as tr
+from ..translate import c13raise as tr_raise
 
 PROPERTY = "C13"
 THEOREM_MODULE = "NemoVerif.Theorems.C13"
@@ -55,7 +56,9 @@ ERR_TIMEOUT = float(os.environ.get("VERIF_C13_TIMEOUT", "10"))
 
 
 def translate():
-    return tr.run()
+    info = tr.run()
+    info["raise_sites"] = tr_raise.run()
+    return info
 
 
 # ============================================================================================ sources
@@ -1167,6 +1170,34 @@ def _site(e):
     return tb[-1].name if tb else "?"
 
 
+def raise_site(e):
+    """where the parser exception came from, set against the static scan of raise sites (translate/c13raise.py):
+    explicit = the innermost frame stands on a `raise` / `assert` statement of a scanned parser module (then `static` = the class
+    the scan resolved there); implicit = a scanned module, but an ordinary statement (IndexError from indexing, ...);
+    engine = raised inside lark; outside = elsewhere."""
+    try:
+        tb = traceback.extract_tb(e.__traceback__)
+        if not tb:
+            return {"kind": "none"}
+        last = tb[-1]
+        fn = os.path.realpath(last.filename)
+        root = os.path.realpath(REPO) + os.sep
+        if fn.startswith(root):
+            rel = fn[len(root):]
+            if rel in tr_raise.scanned_files():
+                st = tr_raise.site_index().get((rel, last.lineno))
+                if st is None:
+                    return {"kind": "implicit", "file": rel, "line": last.lineno}
+                classes = sorted({x["cls"] for x in tr_raise.scan() if x["file"] == rel and x["line"] == last.lineno})
+                return {"kind": "explicit", "file": rel, "line": last.lineno, "static": classes}
+            return {"kind": "outside", "file": rel}
+        if os.sep + "lark" + os.sep in fn:
+            return {"kind": "engine", "known": type(e).__name__ in {x["cls"] for x in tr_raise.scan() if x["kind"] == "engine"}}
+        return {"kind": "outside", "file": os.path.basename(fn)}
+    except Exception as ex:  # noqa
+        return {"kind": "error", "msg": f"{type(ex).__name__}: {ex}"[:120]}
+
+
 def observe_load(fn, path):
     """Run fn() (a loader call); describe the outcome, and the parser exception the wrapper handled (if any)."""
     from nemoguardrails.colang.v2_x.runtime.errors import ColangParsingError
@@ -1182,6 +1213,7 @@ def observe_load(fn, path):
              "at_wrapper": names[-1] in ("_parse_colang_files_recursively", "format_colang_parsing_error_message") if names else False}
         if inner is not None:
             o["inner"] = exc_record(inner)
+            o["raise_site"] = raise_site(inner)
         return o
 
 
@@ -1403,7 +1435,12 @@ def model_requests(case, obs):
     if obs.get("version") == "1.0" and k in ("v1", "file"):
         if not HAVE_NUMBERED:
             return []
-        return [{"m": "C13.numbered", "lines": obs["raw"]}, {"m": "C13.numbered", "lines": obs["eraw"]}]
+        reqs = [{"m": "C13.numbered", "lines": obs["raw"]}, {"m": "C13.numbered", "lines": obs["eraw"]}]
+        edits = _edits_of(case, obs)
+        if len(edits) == 1 and edits[0]["op"] == "scale":
+            # Lean's own `scaleLine k` on the original lines (the edit of `numbered_lines_scale_partial`)
+            reqs.append({"m": "C13.numbered", "lines": obs["raw"], "k": edits[0]["k"]})
+        return reqs
     if k in ("err", "fmt"):
         reqs = _errwrap_requests(k, obs)
         if "num" in obs and HAVE_NUMBERED:
@@ -1446,6 +1483,26 @@ def _cmp_stream(real, model, what):
             if a != b:
                 return f"{what}: token {i} differs: real {a} model {b}"
         return f"{what}: stream lengths differ: real {len(r)} model {len(m2)}"
+    return None
+
+
+_REC_FIELDS = ("text", "indentation", "comment")
+
+
+def _cmp_numbered(real, m, what):
+    """real get_numbered_lines vs the NumberedLines model; names the first record AND field that differ"""
+    if "err" in real or "err" in m:
+        if real.get("err") != m.get("err"):
+            return f"get_numbered_lines ({what}): real {json.dumps(real)[:100]} model {json.dumps({k: v for k, v in m.items() if k != 'tight'})[:100]}"
+        return None
+    rr = [r[:3] for r in real["ok"]]
+    if rr != m["ok"]:
+        for i, (a, b) in enumerate(zip(rr, m["ok"])):
+            if a != b:
+                f = next(j for j in range(3) if a[j] != b[j])
+                return (f"get_numbered_lines ({what}) record {i} (source line {real['ok'][i][3]}, text {a[0][:40]!r}) field `{_REC_FIELDS[f]}`: "
+                        f"real {a[f]!r} model {b[f]!r}")
+        return f"get_numbered_lines ({what}): {len(rr)} records vs model {len(m['ok'])}"
     return None
 
 
@@ -1497,28 +1554,42 @@ def compare(case, obs, mouts):
                 return "Lean scaleP stream differs from the real stream of the scaled text"
         return None
     if obs.get("version") == "1.0" and k in ("v1", "file"):
-        for real, m, what in ((obs["num"], mouts[0], "original"), (obs["enum"], mouts[1], "edited")):
-            if "err" in real or "err" in m:
-                if real.get("err") != m.get("err"):
-                    return f"get_numbered_lines ({what}): real {json.dumps(real)[:100]} model {json.dumps(m)[:100]}"
-            elif [r[:3] for r in real["ok"]] != m["ok"]:
-                for i, (a, b) in enumerate(zip([r[:3] for r in real["ok"]], m["ok"])):
-                    if a != b:
-                        return f"get_numbered_lines ({what}) record {i}: real {a} model {b}"
-                return f"get_numbered_lines ({what}): {len(real['ok'])} records vs model {len(m['ok'])}"
+        checks = [(obs["num"], mouts[0], "original"), (obs["enum"], mouts[1], "edited")]
+        if len(mouts) == 3:
+            # Lean's `scaleLine k` + `numbered` vs the real function on the Python-scaled text
+            checks.append((obs["enum"], mouts[2], "scaled by Lean's scaleLine"))
+        for real, m, what in checks:
+            d = _cmp_numbered(real, m, what)
+            if d:
+                return d
+        if len(mouts) == 3 and mouts[0].get("tight"):
+            # instance of `numbered_lines_scale_partial` on the REAL function: the hypothesis holds (every possible first line of a
+            # multi-line string is tight), so the real records of the scaled text are the real records with indentation x k
+            kk = _edits_of(case, obs)[0]["k"]
+            a, b = obs["num"], obs["enum"]
+            if "err" in a or "err" in b:
+                if a.get("err") != b.get("err"):
+                    return f"numbered_lines_scale_partial instance: real get_numbered_lines raises {a.get('err')} on the original, {b.get('err')} on the scaled text"
+            elif [[r[0], kk * r[1], r[2]] for r in a["ok"]] != [r[:3] for r in b["ok"]]:
+                return "numbered_lines_scale_partial instance fails on the real get_numbered_lines: " + first_difference([[r[0], kk * r[1], r[2]] for r in a["ok"]], [r[:3] for r in b["ok"]], "records")
         return None
     if k in ("err", "fmt"):
         if "num" in obs and HAVE_NUMBERED:
             real, mn = obs["num"], mouts[-1]
             mouts = mouts[:-1]
-            if "err" in real or "err" in mn:
-                if real.get("err") != mn.get("err"):
-                    return f"get_numbered_lines (mutated text): real {json.dumps(real)[:100]} model {json.dumps(mn)[:100]}"
-            elif [r[:3] for r in real["ok"]] != mn["ok"]:
-                return f"get_numbered_lines (mutated text): records differ: real {json.dumps([r[:3] for r in real['ok']])[-200:]} model {json.dumps(mn['ok'])[-200:]}"
+            d = _cmp_numbered(real, mn, "mutated text")
+            if d:
+                return d
             if not mouts:
                 return None
         m = mouts[0]
+        rs = obs.get("raise_site") or {}
+        if rs.get("kind") == "explicit" and "inner" in obs and obs["inner"]["cls"] not in rs["static"] and "<reraise>" not in rs["static"]:
+            return f"static scan of raise sites: {rs['file']}:{rs['line']} is listed with {rs['static']}, but a {obs['inner']['cls']} was raised there"
+        if rs.get("kind") == "engine" and not rs.get("known"):
+            return f"static scan of raise sites: lark raised {obs['inner']['cls']}, which is not among the listed engine classes"
+        if rs.get("kind") == "error":
+            return "raise-site cross-check failed: " + rs.get("msg", "")
         if obs["outcome"] == "ok":
             return None if m.get("returned") else f"loader returned, model says {json.dumps(m)[:160]}"
         if m.get("returned"):
@@ -1708,6 +1779,8 @@ def tags(case, obs):
         t.append("edit-inside-token")
     if k in ("err", "fmt"):
         t.append("outcome:" + obs.get("outcome", "?") + (":" + obs.get("cls", "") if obs.get("outcome") == "raised" else ""))
+        if "raise_site" in obs:
+            t.append("raise-site:" + obs["raise_site"].get("kind", "?"))
         if "inner" in obs:
             t.append("inner:" + obs["inner"]["cls"] + ":line=" + ("int" if isinstance(obs["inner"]["line"], int) else str(obs["inner"]["line"])))
     return t
